@@ -122,8 +122,8 @@ func cursorOf(l *natLoop, phi *ssa.Phi) *cursor {
 		if !l.body[pred] {
 			// entry edge
 			if cu.init == nil {
-				cu.init = stripConv(e)
-			} else if cu.init != stripConv(e) {
+				cu.init = rv(e)
+			} else if cu.init != rv(e) {
 				cu.init = nil
 				return cu
 			}
@@ -179,14 +179,86 @@ func headerCursors(l *natLoop) []*cursor {
 	return out
 }
 
+// rv: stripConv across the boundary of a private helper with one call site: a
+// parameter stands for the argument passed there, a result of such a helper
+// with one way of returning it for the value returned.
+func rv(v ssa.Value) ssa.Value {
+	for i := 0; i < 8; i++ {
+		v = stripConv(v)
+		switch x := v.(type) {
+		case *ssa.Parameter:
+			if a := uniqueArg(x); a != nil {
+				v = a
+				continue
+			}
+		case *ssa.Extract:
+			if cl, ok := x.Tuple.(*ssa.Call); ok {
+				if cal := staticCallee(cl); cal != nil && isPrivateHelper(cal) && cal.Blocks != nil {
+					var src ssa.Value
+					n := 0
+					for _, rs := range returnSources(cal, x.Index) {
+						if _, isC := stripConv(rs.Val).(*ssa.Const); isC {
+							continue
+						}
+						if src == nil || src != rs.Val {
+							n++
+						}
+						src = rs.Val
+					}
+					if n == 1 {
+						v = src
+						continue
+					}
+				}
+			}
+		}
+		return v
+	}
+	return v
+}
+
+// loopInstrs: the instructions of the loop's blocks and of the private
+// helpers with one call site called from them (two levels): a block of
+// statements extracted from the loop body is still part of it.
+func loopInstrs(l *natLoop) []ssa.Instruction {
+	var out []ssa.Instruction
+	var addFn func(f *ssa.Function, d int)
+	visit := func(in ssa.Instruction, d int) {
+		out = append(out, in)
+		if cl, ok := in.(*ssa.Call); ok && d < 2 {
+			if cal := staticCallee(cl); cal != nil && isPrivateHelper(cal) && cal.Blocks != nil && staticSites != nil && len(staticSites[cal]) == 1 {
+				addFn(cal, d+1)
+			}
+		}
+	}
+	addFn = func(f *ssa.Function, d int) {
+		for _, b := range f.Blocks {
+			for _, in := range b.Instrs {
+				visit(in, d)
+			}
+		}
+	}
+	var blocks []*ssa.BasicBlock
+	for b := range l.body {
+		blocks = append(blocks, b)
+	}
+	sort.Slice(blocks, func(i, j int) bool { return blocks[i].Index < blocks[j].Index })
+	for _, b := range blocks {
+		for _, in := range b.Instrs {
+			visit(in, 0)
+		}
+	}
+	return out
+}
+
 // binOf: v is X op K for the constant K (after conversions).
 func binConst(v ssa.Value, op token.Token, k int64) (ssa.Value, bool) {
-	bo, ok := stripConv(v).(*ssa.BinOp)
+	bo, ok := rv(v).(*ssa.BinOp)
 	if !ok || bo.Op != op {
 		return nil, false
 	}
-	if kk, isk := constInt(stripConv(bo.Y)); isk && kk == k {
-		return stripConv(bo.X), true
+	if kk, isk := constInt(rv(bo.Y)); isk && kk == k {
+		return rv(bo.X), true
 	}
 	return nil, false
 }
@@ -369,11 +441,11 @@ func b1Loop(c *Ctx, id string, fn *ssa.Function, l *natLoop, bm *ssa.Call, bs in
 		return ok && x == ssa.Value(posC.phi)
 	}
 	toEnd := func(v ssa.Value) bool { // BlockSize - position%BlockSize
-		bo, ok := stripConv(v).(*ssa.BinOp)
+		bo, ok := rv(v).(*ssa.BinOp)
 		if !ok || bo.Op != token.SUB {
 			return false
 		}
-		k, isk := constInt(stripConv(bo.X))
+		k, isk := constInt(rv(bo.X))
 		return isk && k == bs && inBlk(bo.Y)
 	}
 	// --- bytes left
@@ -453,8 +525,9 @@ func b1Loop(c *Ctx, id string, fn *ssa.Function, l *natLoop, bm *ssa.Call, bs in
 	}
 	nUse := 0
 	var bufs []*ssa.Call
-	for b := range l.body {
-		for _, in := range b.Instrs {
+	body := loopInstrs(l)
+	for _, in := range body {
+		{
 			cl, ok := in.(*ssa.Call)
 			if !ok {
 				continue
@@ -465,7 +538,7 @@ func b1Loop(c *Ctx, id string, fn *ssa.Function, l *natLoop, bm *ssa.Call, bs in
 			}
 			nUse++
 			as := fullArgs(cl)
-			ok2 := blkVal != nil && len(as) > 0 && stripConv(as[len(as)-1]) == blkVal
+			ok2 := blkVal != nil && len(as) > 0 && rv(as[len(as)-1]) == blkVal
 			R.Check(ok2, id, key(fmt.Sprintf("%s of the block of this round", cal.Name())), P.Pos(cl.Pos()), "the block read or addressed is the one bmap returned for this round's index", "result of this round's bmap", "the block touched is not the one mapped for this round: the bytes land in (or come from) another block of the file or of another file")
 			if cal == V.ReadBlock {
 				bufs = append(bufs, cl)
@@ -503,6 +576,7 @@ func b1Loop(c *Ctx, id string, fn *ssa.Function, l *natLoop, bm *ssa.Call, bs in
 					case *ssa.Slice:
 						nAcc++
 						okS := x.Low != nil && inBlk(x.Low)
+						_ = okS
 						R.Check(okS, id, key("in-block offset of the bytes copied"), P.Pos(x.Pos()), "the block buffer is sliced from position%BlockSize", "slice from the in-block offset", "the slice of the block buffer does not start at the in-block offset of the file position")
 					}
 				}
@@ -511,8 +585,8 @@ func b1Loop(c *Ctx, id string, fn *ssa.Function, l *natLoop, bm *ssa.Call, bs in
 		R.Check(nAcc > 0, id, key("block buffer bytes are accessed"), P.Pos(buf.Pos()), "the buffer read for the round is indexed", fmt.Sprintf("%d accesses", nAcc), "the buffer of the round is never indexed")
 	}
 	// whole-block overwrite (OverWrite of the addressed block): its data is the first <count> bytes of the source
-	for b := range l.body {
-		for _, in := range b.Instrs {
+	for _, in := range body {
+		{
 			cl, ok := in.(*ssa.Call)
 			if !ok || staticCallee(cl) != V.OverWrite {
 				continue
@@ -523,12 +597,12 @@ func b1Loop(c *Ctx, id string, fn *ssa.Function, l *natLoop, bm *ssa.Call, bs in
 			srcOK := false
 			for v := range bwdAll(data) {
 				if sl, isS := v.(*ssa.Slice); isS {
-					if cu := byPhi[stripConv(sl.X)]; cu != nil && cu.kind == "slice" && sameVal(cu.step, q) {
+					if cu := byPhi[rv(sl.X)]; cu != nil && cu.kind == "slice" && sameVal(cu.step, q) {
 						lowOK := sl.Low == nil
 						if k, isk := constInt(sl.Low); sl.Low != nil && isk && k == 0 {
 							lowOK = true
 						}
-						if lowOK && sl.High != nil && sameVal(stripConv(sl.High), q) {
+						if lowOK && sl.High != nil && sameVal(rv(sl.High), q) {
 							srcOK = true
 						}
 					}
@@ -546,11 +620,11 @@ func b1Loop(c *Ctx, id string, fn *ssa.Function, l *natLoop, bm *ssa.Call, bs in
 // inner loop that starts at 0, advances by 1 and stays below the per-round
 // count.  Returns the counter.
 func inBlockIndex(idx ssa.Value, inBlk func(ssa.Value) bool, l *natLoop, q ssa.Value) (bool, *ssa.Phi) {
-	bo, ok := stripConv(idx).(*ssa.BinOp)
+	bo, ok := rv(idx).(*ssa.BinOp)
 	if !ok || bo.Op != token.ADD {
 		return false, nil
 	}
-	x, y := stripConv(bo.X), stripConv(bo.Y)
+	x, y := rv(bo.X), rv(bo.Y)
 	if inBlk(y) {
 		x, y = y, x
 	}
@@ -586,7 +660,7 @@ func counterBelow(ph *ssa.Phi, q ssa.Value) bool {
 		if br.Block != inner.head || br.Cond.Y == nil {
 			continue
 		}
-		x, y, op := stripConv(br.Cond.X), stripConv(br.Cond.Y), br.Cond.Op
+		x, y, op := rv(br.Cond.X), rv(br.Cond.Y), br.Cond.Op
 		in := func(b *ssa.BasicBlock) bool { return inner.body[b] && b != inner.head }
 		switch {
 		case x == ssa.Value(ph) && sameVal(y, q) && op == token.LSS:
@@ -609,8 +683,8 @@ func b1Source(c *Ctx, id string, key func(string) string, l *natLoop, st *ssa.St
 	ok, why := false, "the byte stored is not an element of the request's buffer"
 	if ld, isL := stripConv(st.Val).(*ssa.UnOp); isL && ld.Op == token.MUL {
 		if ia, isI := ld.X.(*ssa.IndexAddr); isI {
-			src := stripConv(ia.X)
-			idx := stripConv(ia.Index)
+			src := rv(ia.X)
+			idx := rv(ia.Index)
 			if cu := byPhi[src]; cu != nil {
 				switch {
 				case cu.kind != "slice" || !sameVal(cu.step, q):
@@ -627,7 +701,7 @@ func b1Source(c *Ctx, id string, key func(string) string, l *natLoop, st *ssa.St
 			} else if _, isP := src.(*ssa.Parameter); isP {
 				// request[done + i]
 				if bo, isB := idx.(*ssa.BinOp); isB && bo.Op == token.ADD {
-					x, y := stripConv(bo.X), stripConv(bo.Y)
+					x, y := rv(bo.X), rv(bo.Y)
 					if counter != nil && x == ssa.Value(counter) {
 						x, y = y, x
 					}
@@ -774,15 +848,46 @@ type provTerm struct {
 // composite literals, results of go-nfsd helpers (into their returns) and
 // parameters of private helpers with one call site.  stop(f): calls of f are
 // terminals.
+type provSub struct {
+	m      map[*ssa.Parameter]ssa.Value
+	parent *provSub
+}
+
 func provenance(v ssa.Value, stop func(*ssa.Function) bool) []provTerm {
 	var out []provTerm
-	seen := map[ssa.Value]bool{}
-	var walk func(v ssa.Value, isLen bool, d int)
-	walk = func(v ssa.Value, isLen bool, d int) {
+	type sk struct {
+		v ssa.Value
+		s *provSub
+	}
+	seen := map[sk]bool{}
+	var walk func(v ssa.Value, isLen bool, d int, sub *provSub)
+	walkCall := func(cl *ssa.Call, idx int, isLen bool, d int, sub *provSub) {
+		cal := staticCallee(cl)
+		if cal == nil {
+			out = append(out, provTerm{kind: "other", desc: "dynamic call"})
+			return
+		}
+		if stop(cal) || !IsRepoFunc(cal) || cal.Blocks == nil {
+			out = append(out, provTerm{kind: "call", fn: cal, idx: idx, call: cl, len: isLen})
+			return
+		}
+		// a go-nfsd helper: what it returns, its parameters standing for the arguments of this call
+		ns := &provSub{m: map[*ssa.Parameter]ssa.Value{}, parent: sub}
+		as := fullArgs(cl)
+		for i, q := range cal.Params {
+			if i < len(as) {
+				ns.m[q] = as[i]
+			}
+		}
+		for _, rs := range returnSources(cal, idx) {
+			walk(rs.Val, isLen, d+1, ns)
+		}
+	}
+	walk = func(v ssa.Value, isLen bool, d int, sub *provSub) {
 		if v == nil {
 			return
 		}
-		key := v
+		key := sk{v, sub}
 		if seen[key] {
 			return
 		}
@@ -795,20 +900,28 @@ func provenance(v ssa.Value, stop func(*ssa.Function) bool) []provTerm {
 		case *ssa.Const:
 			out = append(out, provTerm{kind: "const", len: isLen})
 		case *ssa.Convert:
-			walk(x.X, isLen, d)
+			walk(x.X, isLen, d, sub)
 		case *ssa.ChangeType:
-			walk(x.X, isLen, d)
+			walk(x.X, isLen, d, sub)
 		case *ssa.MakeInterface:
-			walk(x.X, isLen, d)
+			walk(x.X, isLen, d, sub)
 		case *ssa.Phi:
 			for _, e := range x.Edges {
-				walk(e, isLen, d)
+				walk(e, isLen, d, sub)
 			}
 		case *ssa.Slice:
-			walk(x.X, isLen, d)
+			walk(x.X, isLen, d, sub)
 		case *ssa.Parameter:
+			if sub != nil {
+				if a, ok := sub.m[x]; ok {
+					walk(a, isLen, d+1, sub.parent)
+					return
+				}
+			}
 			if a := uniqueArg(x); a != nil {
-				walk(a, isLen, d+1)
+				walk(a, isLen, d+1, nil)
+			} else if a := literalArg(x); a != nil {
+				walk(a, isLen, d+1, nil)
 			} else {
 				out = append(out, provTerm{kind: "param", desc: x.Name(), len: isLen})
 			}
@@ -835,7 +948,7 @@ func provenance(v ssa.Value, stop func(*ssa.Function) bool) []provTerm {
 						case *ssa.Store:
 							if y.Addr == addr {
 								n++
-								walk(y.Val, isLen, d+1)
+								walk(y.Val, isLen, d+1, sub)
 							}
 						case *ssa.FieldAddr:
 							visit(y)
@@ -859,45 +972,83 @@ func provenance(v ssa.Value, stop func(*ssa.Function) bool) []provTerm {
 				out = append(out, provTerm{kind: "other", desc: "extract"})
 				return
 			}
-			walkCall(cl, x.Index, isLen, d, stop, &out, walk)
+			walkCall(cl, x.Index, isLen, d, sub)
 		case *ssa.Call:
 			if bi, ok := x.Call.Value.(*ssa.Builtin); ok {
 				switch bi.Name() {
 				case "len":
-					walk(x.Call.Args[0], true, d)
+					walk(x.Call.Args[0], true, d, sub)
 					return
 				case "append":
 					for _, a := range x.Call.Args {
-						walk(a, isLen, d)
+						walk(a, isLen, d, sub)
 					}
 					return
 				}
 				out = append(out, provTerm{kind: "other", desc: bi.Name()})
 				return
 			}
-			walkCall(x, 0, isLen, d, stop, &out, walk)
+			walkCall(x, 0, isLen, d, sub)
 		default:
 			out = append(out, provTerm{kind: "other", desc: fmt.Sprintf("%T", v)})
 		}
 	}
-	walk(v, false, 0)
+	walk(v, false, 0, nil)
 	return out
 }
 
-func walkCall(cl *ssa.Call, idx int, isLen bool, d int, stop func(*ssa.Function) bool, out *[]provTerm, walk func(ssa.Value, bool, int)) {
-	cal := staticCallee(cl)
-	if cal == nil {
-		*out = append(*out, provTerm{kind: "other", desc: "dynamic call"})
-		return
+// literalArg: for a parameter of a function literal that is handed to one
+// go-nfsd function as an argument and called there, through that parameter, at
+// exactly one place: the argument passed at that call.
+func literalArg(p *ssa.Parameter) ssa.Value {
+	lit := p.Parent()
+	if lit == nil || lit.Parent() == nil {
+		return nil
 	}
-	if stop(cal) || !IsRepoFunc(cal) || cal.Blocks == nil {
-		*out = append(*out, provTerm{kind: "call", fn: cal, idx: idx, call: cl, len: isLen})
-		return
+	pi := -1
+	for i, q := range lit.Params {
+		if q == p {
+			pi = i
+		}
 	}
-	// a go-nfsd helper: what it returns
-	for _, rs := range returnSources(cal, idx) {
-		walk(rs.Val, isLen, d+1)
+	var found ssa.Value
+	n := 0
+	for _, b := range lit.Parent().Blocks {
+		for _, in := range b.Instrs {
+			mc, ok := in.(*ssa.MakeClosure)
+			if !ok || mc.Fn != ssa.Value(lit) {
+				continue
+			}
+			for _, r := range refs(mc) {
+				cl, ok := r.(*ssa.Call)
+				if !ok {
+					continue
+				}
+				g := staticCallee(cl)
+				if g == nil || !IsRepoFunc(g) || g.Blocks == nil {
+					return nil
+				}
+				as := fullArgs(cl)
+				for k, a := range as {
+					if a != ssa.Value(mc) || k >= len(g.Params) {
+						continue
+					}
+					for _, gb := range g.Blocks {
+						for _, gin := range gb.Instrs {
+							if gc, ok := gin.(*ssa.Call); ok && gc.Call.Value == ssa.Value(g.Params[k]) && pi < len(gc.Call.Args) {
+								found = gc.Call.Args[pi]
+								n++
+							}
+						}
+					}
+				}
+			}
+		}
 	}
+	if n == 1 {
+		return found
+	}
+	return nil
 }
 
 // addrPath: the root object and the field path of an address.
@@ -1102,11 +1253,31 @@ func ruleB3(c *Ctx, id string) {
 	if w == nil || V.Resize == nil {
 		return
 	}
-	loops := loopsOf(w)
 	var wl *natLoop
-	for _, ci := range P.CallsIn(w, funcIs(V.bmap)) {
-		if l := innermostLoop(loops, ci.Block()); l != nil {
-			wl = l
+	var cands []*ssa.Function
+	var addC func(f *ssa.Function, d int)
+	addC = func(f *ssa.Function, d int) {
+		cands = append(cands, f)
+		if d >= 2 {
+			return
+		}
+		for _, b := range f.Blocks {
+			for _, in := range b.Instrs {
+				if cl, ok := in.(*ssa.Call); ok {
+					if cal := staticCallee(cl); cal != nil && isPrivateHelper(cal) && cal.Blocks != nil && staticSites != nil && len(staticSites[cal]) == 1 {
+						addC(cal, d+1)
+					}
+				}
+			}
+		}
+	}
+	addC(w, 0)
+	for _, f := range cands {
+		loops := loopsOf(f)
+		for _, ci := range P.CallsIn(f, funcIs(V.bmap)) {
+			if l := innermostLoop(loops, ci.Block()); l != nil {
+				wl = l
+			}
 		}
 	}
 	n := 0
@@ -1116,10 +1287,10 @@ func ruleB3(c *Ctx, id string) {
 				continue
 			}
 			n++
-			val := sc.S.resolve(stripConv(fw.Val))
+			val := rv(fw.Val)
 			ok, why := false, "the value stored is not <start> + <bytes written>"
 			if bo, isB := val.(*ssa.BinOp); isB && bo.Op == token.ADD && wl != nil {
-				x, y := sc.S.resolve(stripConv(bo.X)), sc.S.resolve(stripConv(bo.Y))
+				x, y := rv(bo.X), rv(bo.Y)
 				for i := 0; i < 2; i++ {
 					if ph, isP := y.(*ssa.Phi); isP && ph.Block() == wl.head {
 						cu := cursorOf(wl, ph)
@@ -1130,7 +1301,7 @@ func ruleB3(c *Ctx, id string) {
 								posInit = q.init
 							}
 						}
-						if isk && k == 0 && cu.kind == "+" && posInit != nil && posInit == x {
+						if isk && k == 0 && cu.kind == "+" && posInit != nil && rv(posInit) == x {
 							ok = true
 						}
 					}
@@ -1143,7 +1314,7 @@ func ruleB3(c *Ctx, id string) {
 				if cd.Y == nil {
 					return false, false
 				}
-				x, y, op := sc.S.resolve(stripConv(cd.X)), sc.S.resolve(stripConv(cd.Y)), cd.Op
+				x, y, op := rv(cd.X), rv(cd.Y), cd.Op
 				isSize := func(v ssa.Value) bool {
 					nn, fl, _, isElem := loadedField(v)
 					return !isElem && nn == V.Inode && fl == "Size"
@@ -1184,7 +1355,7 @@ func ruleB3(c *Ctx, id string) {
 
 // sameAdd: a and b are the same value, or the same sum of the same two operands.
 func sameAdd(a, b ssa.Value) bool {
-	a, b = stripConv(a), stripConv(b)
+	a, b = rv(a), rv(b)
 	if a == b {
 		return true
 	}
@@ -1193,6 +1364,6 @@ func sameAdd(a, b ssa.Value) bool {
 	if !ok1 || !ok2 || x.Op != token.ADD || y.Op != token.ADD {
 		return false
 	}
-	ax, ay, bx, by := stripConv(x.X), stripConv(x.Y), stripConv(y.X), stripConv(y.Y)
+	ax, ay, bx, by := rv(x.X), rv(x.Y), rv(y.X), rv(y.Y)
 	return (ax == bx && ay == by) || (ax == by && ay == bx)
 }
